@@ -183,6 +183,9 @@ func (env *SpecEnv) ident(name string) (SpecVal, error) {
 		return SpecVal{V: tv(name), Go: types.Typ[types.Bool]}, nil
 	case "nil":
 		return SpecVal{IsNil: true}, nil
+	case "alloc":
+		// the allocation frontier: every reference handed out so far is below it
+		return SpecVal{V: tv(x.getSV("alloc", "Int")), Go: types.Typ[types.Int]}, nil
 	case "result":
 		if env.resTypes == nil {
 			return SpecVal{}, fmt.Errorf("result used outside a postcondition")
@@ -553,8 +556,22 @@ func (env *SpecEnv) call(e *SExpr) (SpecVal, error) {
 			return SpecVal{}, fmt.Errorf("dyn(x, \"type\")")
 		}
 		at := env.term(args[0])
-		id := x.smt.typeID(e.Args[1].Name)
+		tn := e.Args[1].Name
+		if gt, err := env.resolveType(tn); err == nil {
+			tn = gt.String()
+		}
+		id := x.smt.typeID(tn)
 		return SpecVal{V: tv(fmt.Sprintf("(and ((_ is APtr) %s) (= (atype %s) %d))", at, at, id)), Go: boolT}, nil
+	case "ptr":
+		// ptr(x, "*pkg.T"): the pointer payload of interface value x, typed as *pkg.T
+		if len(e.Args) != 2 || e.Args[1].Kind != SStr {
+			return SpecVal{}, fmt.Errorf("ptr(x, \"*type\")")
+		}
+		gt, err := env.resolveType(e.Args[1].Name)
+		if err != nil {
+			return SpecVal{}, err
+		}
+		return SpecVal{V: tv("(aref " + env.term(args[0]) + ")"), Go: gt}, nil
 	case "ref":
 		_, at, err := one()
 		if err != nil {
@@ -572,6 +589,23 @@ func (env *SpecEnv) call(e *SExpr) (SpecVal, error) {
 			return SpecVal{}, err
 		}
 		return SpecVal{V: tv("((_ is " + e.Name[2:] + ") " + at + ")"), Go: boolT}, nil
+	case "freshonly":
+		// freshonly("SV"): the heap array SV agrees with its function-entry version at every
+		// reference that existed at function entry (the code only wrote freshly allocated objects)
+		if len(e.Args) != 1 || e.Args[0].Kind != SStr {
+			return SpecVal{}, fmt.Errorf("freshonly(\"state variable\")")
+		}
+		name := e.Args[0].Name
+		so, ok := x.svSort[name]
+		if !ok {
+			return SpecVal{V: tv("true"), Go: boolT}, nil
+		}
+		cur := x.getSV(name, so)
+		ini := x.init[name]
+		if cur == ini {
+			return SpecVal{V: tv("true"), Go: boolT}, nil
+		}
+		return SpecVal{V: tv(fmt.Sprintf("(forall ((r Int)) (=> (and (<= 0 r) (< r %s)) (= (select %s r) (select %s r))))", x.init["alloc"], cur, ini)), Go: boolT}, nil
 	case "same":
 		// identity (SMT =), as opposed to Go's == which is fp.eq on floats
 		if len(args) != 2 {
@@ -649,9 +683,6 @@ func (x *Exec) specEnvAt(b *ssa.BasicBlock, rp *retPoint) *SpecEnv {
 					continue
 				}
 				if b != nil && !(blk == b || blk.Dominates(b)) {
-					continue
-				}
-				if _, isPhi := i.X.(*ssa.Phi); isPhi {
 					continue
 				}
 				env.vars[id.Name()] = SpecVal{V: val, Go: i.X.Type()}
